@@ -2,9 +2,9 @@
    CasNamed s: every file visible under cas/ holds exactly the bytes whose hash is encoded in its
    path.  cas_safe: a recorded call never creates, opens for writing, appends to, syncs or renames
    away a path under cas/; the only calls naming a CAS path are `rename staging -> cas` and `unlink`. *)
-From Cas Require Import History.
+From Cas Require Import History Inode.
 From CasProofs Require Import StoreFS StoreInv StoreWrite StoreRead StoreHist.
-From CasProofs Require CrashInv CrashCas.
+From CasProofs Require CrashInv CrashCas InodeProofs.
 
 Theorem C06_cas_immutable :
   forall H : bytes -> bytes,
@@ -52,3 +52,126 @@ Theorem C06_every_crash_point :
     CasNamed H (crash_fs n (rev (wtrace (snd (prog (init_world x None))))) x).
 Proof. exact CrashCas.cas_named_crash_fs. Qed.
 Print Assumptions C06_every_crash_point.
+
+(* ---------------------------------------------------------------------------------------------
+   Long-lived readers.  "A reader obtained before an overwrite or removal keeps streaming the
+   complete original content."  A reader is an open descriptor, and a descriptor denotes an
+   INODE, which the name-level model of FS.v does not have.  theories/Inode.v gives the same
+   calls an inode-level semantics (ifs: name -> inode, inode -> content; istep; irun runs a
+   recorded trace oldest first; iread = what a descriptor on that inode reads; ilookup = the
+   inode a name denotes; abs_i = the content visible under a name).
+   --------------------------------------------------------------------------------------------- *)
+
+(* the inode model is the same filesystem as FS.v, seen through names: along the recorded
+   trace of any history of data-API calls (any fault plan) both show the same content under
+   every name.  iwf / FsWf: no duplicate entries; iwf also says that no inode has two names. *)
+Theorem C06_inode_model_agrees :
+  forall (tr : list tev) (s0 : ifs) (x0 : fs),
+    iwf s0 -> FsWf x0 -> effective tr x0 ->
+    (forall p, abs_i s0 p = option_map fdata (fget x0 p)) ->
+    forall p, abs_i (irun s0 tr) p = option_map fdata (fget (replay_calls tr x0) p).
+Proof. exact InodeProofs.inode_name_agreement. Qed.
+Print Assumptions C06_inode_model_agrees.
+
+Theorem C06_inode_model_agrees_history :
+  forall (H : bytes -> bytes) (ops : list op) (hd : option handle) (w : world) (si : ifs),
+    Forall InodeProofs.data_op ops -> iwf si -> FsWf (wfs w) ->
+    (forall p, abs_i si p = option_map fdata (fget (wfs w) p)) ->
+    exists tr, wtrace (snd (run_ops H hd ops w)) = tr ++ wtrace w /\
+               iwf (irun si (rev tr)) /\ FsWf (wfs (snd (run_ops H hd ops w))) /\
+               forall p, abs_i (irun si (rev tr)) p
+                         = option_map fdata (fget (wfs (snd (run_ops H hd ops w))) p).
+Proof. exact InodeProofs.history_name_agreement. Qed.
+Print Assumptions C06_inode_model_agrees_history.
+
+(* the calls covered by the previous theorem, displayed *)
+Theorem C06_data_op_meaning :
+  forall o : op,
+    InodeProofs.data_op o <->
+    match o with
+    | OpOpen _ _ | OpDeleteOrphans | OpQuarantine | OpDeleteOrphan _ => False
+    | _ => True
+    end.
+Proof. intros o. destruct o; reflexivity. Qed.
+Print Assumptions C06_data_op_meaning.
+
+(* iwf is an invariant of the inode model, and every well-formed name-level filesystem has an
+   inode-level counterpart: the hypotheses "iwf" and "agrees initially" can always be met *)
+Theorem C06_inode_model_wf :
+  (forall s c, iwf s -> iwf (istep s c)) /\
+  (forall x, FsWf x -> iwf (ifs_of x) /\ forall p, abs_i (ifs_of x) p = option_map fdata (fget x p)).
+Proof. split; [exact InodeProofs.istep_wf|exact InodeProofs.ifs_of_ok]. Qed.
+Print Assumptions C06_inode_model_wf.
+
+(* the reader theorem: ino is the inode the blob path denotes when the reader is opened, c its
+   content.  After ANY trace of cas_safe calls -- the name may have been unlinked, another staged
+   file may have been renamed onto it, any number of times -- a read through the descriptor
+   still gives exactly c. *)
+Theorem C06_reader_keeps_its_content :
+  forall (s : ifs) (comps : list bytes) (ino : nat) (c : bytes) (tr : list tev),
+    iwf s -> ilookup s (PCas comps) = Some ino -> iread s ino = Some c ->
+    Forall cas_safe tr ->
+    iread (irun s tr) ino = Some c.
+Proof. exact InodeProofs.C06_reader_keeps_its_content. Qed.
+Print Assumptions C06_reader_keeps_its_content.
+
+(* ... also at every intermediate point of the trace (the reader is streaming while the other
+   calls happen), and for a descriptor whose name is already gone *)
+Theorem C06_reader_keeps_its_content_always :
+  forall (s : ifs) (ino : nat) (c : bytes) (tr : list tev),
+    iwf s -> iread s ino = Some c -> (forall q, ilookup s q = Some ino -> is_cas q) ->
+    Forall cas_safe tr ->
+    forall n, iread (irun s (firstn n tr)) ino = Some c.
+Proof. exact InodeProofs.reader_keeps_its_content_gen. Qed.
+Print Assumptions C06_reader_keeps_its_content_always.
+
+(* tied to the store: run ops1, open a reader on the blob of any key k (with content c in the
+   specification state reached), run ops2: at every point of ops2's trace the reader still
+   reads c.  C06_cas_immutable provides `Forall cas_safe` for the trace of every history;
+   Live0 provides the blob of every key. *)
+Theorem C06_reader_survives_history :
+  forall H : bytes -> bytes,
+    (forall b, length (H b) = 32%nat) -> (forall b, Forall (fun x => x < 256) (H b)) ->
+  forall cfg : config, 0 < c_n cfg ->
+  forall (ops1 ops2 : list op) (m : mem) (s : fs) (sg : smap bytes) (os : option ostats)
+         (w : world) (si : ifs),
+    Live0 H cfg m s sg -> wfs w = s -> wfault w = None ->
+    Forall (api_op cfg) (ops1 ++ ops2) ->
+    NoCollide H (hist_contents (ops1 ++ ops2) ++ map snd sg) ->
+    FsWf s -> iwf si -> (forall p, abs_i si p = option_map fdata (fget s p)) ->
+    exists outs1 hd1 w1 r2 w2 tr1 tr2,
+      run_ops H (Some (mkHandle cfg m os)) ops1 w = ((outs1, Some hd1), w1) /\
+      wtrace w1 = tr1 ++ wtrace w /\
+      run_ops H (Some hd1) ops2 w1 = (r2, w2) /\ wtrace w2 = tr2 ++ wtrace w1 /\
+      let si1 := irun si (rev tr1) in
+      forall k c,
+        sm_get (key_cmp (c_kt cfg)) (fold_left (spec_step (key_cmp (c_kt cfg))) ops1 sg) k = Some c ->
+        exists ino, ilookup si1 (cas_path (H c)) = Some ino /\ iread si1 ino = Some c /\
+                    forall n, iread (irun si1 (firstn n (rev tr2))) ino = Some c.
+Proof. exact InodeProofs.C06_reader_survives_history. Qed.
+Print Assumptions C06_reader_survives_history.
+
+(* a blob (inode 0, bytes 10 20 30) is opened; its name is unlinked and a new staged file with
+   other bytes is renamed to the same name: the reader still reads 10 20 30, the name shows 77 *)
+Example C06_reader_example :
+  let blob := PCas [[1]] in
+  let s := irun empty_ifs [TCall (CCreateExcl (PStaging 0)); TCall (CAppend (PStaging 0) [10; 20; 30]);
+                           TCall (CRename (PStaging 0) blob)] in
+  let later := [TCall (CUnlink blob); TCall (CCreateExcl (PStaging 1));
+                TCall (CAppend (PStaging 1) [77]); TCall (CRename (PStaging 1) blob)] in
+  ilookup s blob = Some 0%nat /\ iread s 0%nat = Some [10; 20; 30] /\ Forall cas_safe later /\
+  iread (irun s later) 0%nat = Some [10; 20; 30] /\ abs_i (irun s later) blob = Some [77].
+Proof.
+  cbv zeta. split; [vm_compute; reflexivity|]. split; [vm_compute; reflexivity|].
+  split; [repeat constructor|]. split; vm_compute; reflexivity.
+Qed.
+
+(* the hypothesis is needed: an append to the path under cas/ (excluded by cas_safe) reaches the
+   reader's inode *)
+Example C06_reader_needs_cas_safe :
+  let blob := PCas [[1]] in
+  let s := irun empty_ifs [TCall (CCreateExcl (PStaging 0)); TCall (CAppend (PStaging 0) [10; 20; 30]);
+                           TCall (CRename (PStaging 0) blob)] in
+  ~ cas_safe (TCall (CAppend blob [99])) /\
+  iread (irun s [TCall (CAppend blob [99])]) 0%nat = Some [10; 20; 30; 99].
+Proof. cbv zeta. split; [intros X; exact X|vm_compute; reflexivity]. Qed.
